@@ -500,15 +500,16 @@ def gen_hook(rng, absent=0.25):
     if r < 0.6:
         return {"k": "ret"}
     if r < 0.8:
-        return {"k": "panic", "v": rng.randint(1, 9)}
+        # a third of the panics are genuine Go run-time errors (index out of range) rather than explicit panics
+        return {"k": "panic", "v": rng.randint(1, 9), "rt": rng.random() < 0.33}
     return {"k": "exit", "n": rng.choice([0, 1, 3, 7, 255])}
 
 
 def hook_assignments(depth):
-    """every assignment of {absent, returns, panics, exits} to the 2*depth+1 callbacks of a path"""
-    kinds = [None, {"k": "ret"}, {"k": "panic", "v": 5}, {"k": "exit", "n": 3}]
+    """every assignment of {absent, returns, panics, exits, fails with a run-time error} to the 2*depth+1 callbacks of a path"""
+    kinds = [None, {"k": "ret"}, {"k": "panic", "v": 5}, {"k": "exit", "n": 3}, {"k": "panic", "v": 6, "rt": True}]
     n = 2 * depth + 1
-    for combo in itertools.product(range(4), repeat=n):
+    for combo in itertools.product(range(5), repeat=n):
         yield [kinds[i] for i in combo]
 
 
